@@ -1,21 +1,23 @@
 """Schema-aware generator of builder programs that are valid on a fixed SQLite schema (C07, C09).
-Schema:  t(id INTEGER PRIMARY KEY, a INT, b INT, c TEXT)   u(id INTEGER PRIMARY KEY, a INT, d INT)
+Schema:  t(id INTEGER PRIMARY KEY, a INT, b INT, c TEXT, q INT, q<dquote> INT, q<backtick> INT)   u(id INTEGER PRIMARY KEY, a INT, d INT)
+         (the three q columns differ only by a trailing quote character of one of the dialects: an identifier that
+         loses it on one backend reads another column there)
          p(id INTEGER PRIMARY KEY, k INT, v INT) with the partial unique index p_k (k) WHERE k > 0
 Statements are valid by construction (existing columns, matching arities), so a syntax error of the
 engine on a rendering is a finding, not a generator accident."""
 from vlib import hexs
 
 SCHEMA = """
-CREATE TABLE t (id INTEGER PRIMARY KEY, a INT, b INT, c TEXT);
+CREATE TABLE t (id INTEGER PRIMARY KEY, a INT, b INT, c TEXT, q INT DEFAULT 70, [q"] INT DEFAULT 80, "q`" INT DEFAULT 90);
 CREATE TABLE u (id INTEGER PRIMARY KEY, a INT, d INT);
-INSERT INTO t VALUES (1, 1, 10, 'x'), (2, 2, NULL, 'y'), (3, NULL, 30, NULL), (4, 2, 10, 'X'), (5, 3, 5, 'zz'), (6, NULL, NULL, 'n');
+INSERT INTO t VALUES (1, 1, 10, 'x', 7, 8, 9), (2, 2, NULL, 'y', 17, 28, 39), (3, NULL, 30, NULL, 1, 2, NULL), (4, 2, 10, 'X', NULL, 5, 6), (5, 3, 5, 'zz', 3, NULL, 4), (6, NULL, NULL, 'n', 2, 2, 2);
 INSERT INTO u VALUES (1, 1, 7), (2, 2, NULL), (3, 9, 9), (4, NULL, 1), (5, NULL, NULL);
 CREATE TABLE p (id INTEGER PRIMARY KEY, k INT, v INT);
 CREATE UNIQUE INDEX p_k ON p (k) WHERE k > 0;
 INSERT INTO p VALUES (1, 1, 10), (2, 2, 20), (3, 0, 30), (4, 0, 40), (5, NULL, 50);
 """
 TABLES = {"t": ["id", "a", "b", "c"], "u": ["id", "a", "d"]}
-INT_COLS = {"t": ["id", "a", "b"], "u": ["id", "a", "d"]}
+INT_COLS = {"t": ["id", "a", "b", "q", 'q"', "q`"], "u": ["id", "a", "d"]}
 
 
 def h(s):
@@ -245,6 +247,16 @@ class SG:
     def select_cte(self):
         r = self.r
         mat = r.choice(["", "", " mat", " notmat"]) if not self.portable else ""
+        if r.random() < 0.35:
+            # CommonTableExpression::from_select: the table is named cte_<first FROM table>, the columns are the
+            # aliases (a plain column reference gives its own name only when it has no alias).  The aliases are the
+            # names of OTHER columns, so that taking the wrong name returns other rows, not an error
+            inner = "(select (expras %s %s) (expras %s %s) (col %s) (from (t %s))%s)" % (
+                self.col("t", "a"), h("b"), self.col("t", "b"), h("a"), self.col("t", "id", qualified=False), h("t"),
+                "".join(" " + w for w in self.where("t")))
+            body = "(select (col (col %s %s)) (expr (bin add (col %s %s) (val i:i32:1))) (col (col %s %s)) (from (t %s)))" % (
+                h("cte_t"), h("a"), h("cte_t"), h("b"), h("cte_t"), h("id"), h("cte_t"))
+            return "(withq (with (ctefs %s%s)) %s)" % (inner, mat, body), False
         inner = "(select (col %s) (col %s) (from (t %s))%s)" % (self.col("t", "id"), self.col("t", "a"), h("t"),
                                                           "".join(" " + w for w in self.where("t")))
         cte = "(cte %s (cols %s %s) %s%s)" % (h("w"), h("k"), h("v"), inner, mat)
